@@ -186,12 +186,12 @@ def check_function(ctx, f, creates, only_cover_locs=None, prefix='C13'):
             if not has_param:
                 continue
             if norm(s.value) != '[]':
-                ctx.ob('C13-NONE.list-created-iff-parameter-is-None', f, s, False,
+                ctx.ob(prefix + '-NONE.list-created-iff-parameter-is-None', f, s, False,
                        'undo_funcs is rebound to `%s`: an empty list passed by the caller is falsy and gets replaced by a private list '
                        'that the caller never replays' % norm(s.value), expected='if undo_funcs is None: undo_funcs = []')
                 continue
             ok, why = none_guard_ok(ctx, f, g, s)
-            ctx.ob('C13-NONE.list-created-iff-parameter-is-None', f, s, ok, why,
+            ctx.ob(prefix + '-NONE.list-created-iff-parameter-is-None', f, s, ok, why,
                    expected='`if undo_funcs is None` / `flag = undo_funcs is not None; if not flag: undo_funcs = []`')
     if has_param:
         # the flag that decides whether this call replays the list must be the None-ness of the parameter
@@ -199,7 +199,7 @@ def check_function(ctx, f, creates, only_cover_locs=None, prefix='C13'):
             if isinstance(s, ast.Assign) and len(s.targets) == 1 and isinstance(s.targets[0], ast.Name) \
                     and s.targets[0].id in ('is_reverse_call', 'is_recursive_call'):
                 ok = norm(s.value) == 'undo_funcs is not None'
-                ctx.ob('C13-NONE.nested-call-flag', f, s, ok,
+                ctx.ob(prefix + '-NONE.nested-call-flag', f, s, ok,
                        '' if ok else 'the nested-call flag is %s: an outer caller legitimately passes an *empty* list, which this treats as a '
                        'top-level call (own private undo list, never replayed by the caller)' % norm(s.value),
                        expected='undo_funcs is not None')
@@ -220,7 +220,7 @@ def check_function(ctx, f, creates, only_cover_locs=None, prefix='C13'):
             late = [p for p in late if not (isinstance(p.ast, ast.Raise) and p.ast.exc is None)]
             if late:
                 ok = False; detail = 'failure point at line %d (`%s`) can be reached before undo_funcs.append(%s)' % (late[0].lineno, head(late[0].ast, 60), c.name)
-        ctx.ob('C13-REG.closure-registered-before-failure-points', f, c.node, ok, detail, expected='undo_funcs.append(%s)' % c.name)
+        ctx.ob(prefix + '-REG.closure-registered-before-failure-points', f, c.node, ok, detail, expected='undo_funcs.append(%s)' % c.name)
         # ---------------------------------------------------------- STALE
         loop_vars = set()
         for s in walk_no_nested(f.node):
@@ -236,7 +236,7 @@ def check_function(ctx, f, creates, only_cover_locs=None, prefix='C13'):
             if isinstance(x, ast.Name) and isinstance(x.ctx, ast.Store): local.add(x.id)
         free = {x.id for x in ast.walk(c.node) if isinstance(x, ast.Name) and isinstance(x.ctx, ast.Load)} - local - set(dir(builtins))
         stale = sorted(free & loop_vars)
-        ctx.ob('C13-STALE.closure-reads-no-loop-variant-variable', f, c.node, not stale,
+        ctx.ob(prefix + '-STALE.closure-reads-no-loop-variant-variable', f, c.node, not stale,
                '' if not stale else 'closure %s reads %s, which the forward loop reassigns per item: when undoing it sees the value of the last '
                'iteration (its own loop does not rebind it)' % (c.name, stale), expected='unpack the value saved per item in the undo list')
     cover_rule(ctx, f, g, closures, has_param, None, prefix)
